@@ -83,7 +83,7 @@ func checkRuntime(c *Ctx, prop string) {
 		}
 		c.Current(map[string]any{"stream": "runtime schedules", "index": i,
 			"params": fmt.Sprintf("skipInit=%v delay=%v suppress=%v sources=%d clients=%d profile=%s stuckCallback=%v", cfg.skipInit, cfg.delay, cfg.suppress, cfg.nsrc, cfg.nclients, cfg.profile.name, cfg.stuck),
-			"init": cfg.init, "trace_file": "current-trace.log"})
+			"init":   cfg.init, "trace_file": "current-trace.log"})
 		r := runSchedule(c, rng.Fork(), cfg)
 		res.TracesVsImpl++
 		res.Count("profile/" + cfg.profile.name)
